@@ -84,6 +84,9 @@ type Sig struct {
 	ROdd bool // parity of the affine y of R
 	E, S *big.Int
 	Lib  string // the library's verifier (scheme.Verifier()) on this signature: ok | reject | panic
+	// LibWire: the same verifier on the signature re-parsed from Wire with the variant's own
+	// deserialiser (bip340.NewSignatureFromBytes, mina.DeserializeSignature): ok | reject | panic | - (no deserialiser)
+	LibWire string
 }
 
 // Result is the typed outcome.
@@ -143,7 +146,7 @@ func RunFull(cfg Config) *Result {
 		if err != nil {
 			return bad(err.Error())
 		}
-		return run(cfg, k256.NewCurve(), sch, bip340.Message(cfg.Message))
+		return run(cfg, k256.NewCurve(), sch, bip340.Message(cfg.Message), bip340.NewSignatureFromBytes)
 	case "mina":
 		sch, err := mina.NewRandomisedScheme(mina.MainNet, prng)
 		if err != nil {
@@ -151,7 +154,7 @@ func RunFull(cfg Config) *Result {
 		}
 		msg := new(mina.ROInput).Init()
 		msg.AddString(string(cfg.Message))
-		return run(cfg, pasta.NewPallasCurve(), sch, msg)
+		return run(cfg, pasta.NewPallasCurve(), sch, msg, mina.DeserializeSignature)
 	case "schnorr-k256", "schnorr-k256-neg", "schnorr-k256-le":
 		hf, err := ddkls.HashFunc(cfg.Hash)
 		if err != nil {
@@ -161,7 +164,7 @@ func RunFull(cfg Config) *Result {
 		if err != nil {
 			return bad(err.Error())
 		}
-		return run(cfg, k256.NewCurve(), sch, vanilla.Message(cfg.Message))
+		return run(cfg, k256.NewCurve(), sch, vanilla.Message(cfg.Message), nil)
 	case "schnorr-p256":
 		hf, err := ddkls.HashFunc(cfg.Hash)
 		if err != nil {
@@ -171,7 +174,7 @@ func RunFull(cfg Config) *Result {
 		if err != nil {
 			return bad(err.Error())
 		}
-		return run(cfg, p256.NewCurve(), sch, vanilla.Message(cfg.Message))
+		return run(cfg, p256.NewCurve(), sch, vanilla.Message(cfg.Message), nil)
 	}
 	return bad("unknown variant " + cfg.Variant)
 }
@@ -181,7 +184,7 @@ func run[
 	VR mpcschnorr.MPCFriendlyVariant[GE, S, M],
 	GE algebra.PrimeGroupElement[GE, S], S algebra.PrimeFieldElement[S], M schnorrlike.Message,
 	KG schnorrlike.KeyGenerator[GE, S], SG schnorrlike.Signer[VR, GE, S, M], VF schnorrlike.Verifier[VR, GE, S, M],
-](cfg Config, group algebra.PrimeGroup[GE, S], scheme SCH, msg M) *Result {
+](cfg Config, group algebra.PrimeGroup[GE, S], scheme SCH, msg M, reparse func([]byte) (*schnorrlike.Signature[GE, S], error)) *Result {
 	e := keys.NewEngine("lindell22-"+cfg.Variant, cfg.Common)
 	res := &Result{Trace: e.Tr, Quorum: e.IDs, Partials: map[sharing.ID]*Partial{}, SigBy: map[sharing.ID]*Sig{}}
 	fail := func(format string, a ...any) *Result {
@@ -344,6 +347,26 @@ func run[
 		})
 		if p != "" {
 			out.Lib = "panic"
+		}
+		out.LibWire = "-"
+		if reparse != nil && out.Wire != nil {
+			out.LibWire = "reject"
+			p := vh.Safely(func() {
+				s2, err := reparse(out.Wire)
+				if err != nil {
+					return
+				}
+				vf, err := scheme.Verifier()
+				if err != nil {
+					return
+				}
+				if vf.Verify(s2, pk, msg) == nil {
+					out.LibWire = "ok"
+				}
+			})
+			if p != "" {
+				out.LibWire = "panic"
+			}
 		}
 		return out
 	}
